@@ -1380,7 +1380,7 @@ fn fixtures() -> Vec<(&'static str, &'static str, &'static str)> {
 
 // ====================================================================== lifted numbers
 
-const LIFT_SPELLINGS: [&str; 9] = ["splice", "bang", "pipe", "poly", "let", "fn", "global", "in-quote", "rec-sum"];
+const LIFT_SPELLINGS: [&str; 11] = ["splice", "bang", "pipe", "poly", "let", "fn", "global", "in-quote", "rec-sum", "if-cond", "if-cond-in-macro"];
 const LIFT_LITS: [f64; 24] = [
     0.0, 1.0, 2.0, 3.0, 10.0, 0.1, 0.2, 0.3, 0.7, 1.5, 7.0, 100.0, 10000000.0, 9007199254740992.0, 0.001, 123456789.0, 0.5, 1023.0, 52.0,
     300.0, 4503599627370497.0, 0.0001, 1e15, 6.02,
@@ -1440,6 +1440,7 @@ fn lift_case(rng: &mut Rng, block: usize) -> Option<SCase> {
     let mut chans: Vec<String> = vec![];
     let mut lifts = vec![];
     let mut tags = vec![];
+    let mut pre: Vec<String> = vec![];
     for i in 0..k {
         let a = if i < 3 { lift_special((block * 3 + i) % N_SPECIAL) } else { { let d = 1 + rng.below(3); lift_random(rng, d) } };
         let at = expr_text(&a);
@@ -1460,6 +1461,20 @@ fn lift_case(rng: &mut Rng, block: usize) -> Option<SCase> {
                 format!("$(lift_f(c9_v{i}))")
             }
             "in-quote" => format!("$(`{{ $(lift_f({at})) }})"),
+            // the lifted number as the condition of a generated `if`: the then-arm is taken for numbers
+            // above zero only (negative numbers and NaN can reach a literal position in no other way)
+            // (bound by a `let` before the result tuple: an `if` inside a tuple literal is a recorded defect)
+            "if-cond" => {
+                want = if want > 0.0 { 1.0 } else { 2.0 };
+                pre.push(format!("let c9c{i} = if ($(lift_f({at}))) {{ 1.0 }} else {{ 2.0 }}"));
+                format!("c9c{i}")
+            }
+            "if-cond-in-macro" => {
+                want = if want > 0.0 { 1.0 } else { 2.0 };
+                defs.push(format!("fn c9_pick{i}(flag){{ `{{ if ($(lift_f(flag))) {{ 1.0 }} else {{ 2.0 }} }} }}"));
+                pre.push(format!("let c9c{i} = c9_pick{i}!({at})"));
+                format!("c9c{i}")
+            }
             _ => {
                 // numeric recursion at the macro stage: x added m times to 0.0
                 let m = 1 + rng.below(7);
@@ -1486,7 +1501,8 @@ fn lift_case(rng: &mut Rng, block: usize) -> Option<SCase> {
         }
         staged.push_str("#stage(main)\n");
     }
-    staged.push_str(&format!("fn dsp(){{\n  ({})\n}}\n", chans.join(",\n   ")));
+    let pre_txt: String = pre.iter().map(|l| format!("  {l}\n")).collect();
+    staged.push_str(&format!("fn dsp(){{\n{pre_txt}  ({})\n}}\n", chans.join(",\n   ")));
     Some(SCase { family: "lift".into(), staged, expanded: String::new(), tags, class: "lift".into(), n: 2, input_seed: 0, marked: None, lifts })
 }
 
